@@ -279,7 +279,7 @@ def replay_chunk(chunk):
     """chunk: list of groups (each a list of records with one key).  -> dict of counters and findings"""
     mode = _W["mode"]
     res = {"n": 0, "runs": 0, "dev": 0, "mismatch": [], "viol": [], "tie": 0, "tie_real": 0, "nontrivial": [],
-           "colpage": 0, "scalecmp": 0, "samples": [], "pred_evals": 0, "sim_tie": 0, "gridties": 0, "alias_runs": 0, "alias_skipped": 0}
+           "colpage": 0, "scalecmp": 0, "samples": [], "pred_evals": 0, "sim_tie": 0, "gridties": 0, "alias_runs": 0, "alias_skipped": 0, "variant_runs": 0}
     for g in chunk:
         rs = parse_group(g)
         rec = rs[0]
@@ -296,12 +296,16 @@ def replay_chunk(chunk):
         nglyph = sum(1 for it in rec["page"] if it["k"] == "c")
         if nglyph >= 2:
             res["nontrivial"].append(hash(R.rec_key(rec)) & 0xFFFFFFFFFFFF)
-        runs = [(scale, rev, None) for si, scale in enumerate(DIRECT_SCALES)
+        runs = [(scale, rev, None, 0) for si, scale in enumerate(DIRECT_SCALES)
                 for rev in ((False, True) if si == 0 else (si % 2 == 1,))]
+        # other representatives of the glyph-text classes: blanks that are line feeds / carriage returns, glyphs whose
+        # text has several characters (the tree must be the same, every line still ends in its own line break)
+        if any(it["k"] == "c" and it["t"] == "s" for it in rec["page"]) or res["n"] % 8 == 0:
+            runs += [(1, False, None, v) for v in R.VARIANTS[1:]]
         # extreme-but-valid LAParams (very large incl. inf, tiny positive) in place of the ratio that stands for them
-        runs += [(1, False, al) for al in R.la_aliases(rec["p"])]
+        runs += [(1, False, al, 0) for al in R.la_aliases(rec["p"])]
         la_base = R.la_of(rec["p"])
-        for scale, rev, alias in runs:
+        for scale, rev, alias, variant in runs:
             if True:
                 if alias is not None and _W["slow"].get(alias, 0) >= 2:
                     res["alias_skipped"] += 1          # this value already ran out of CPU time twice in this worker
@@ -309,7 +313,7 @@ def replay_chunk(chunk):
                 try:
                     cpu_limit(CPU_ANALYSIS if alias is None else CPU_ALIAS)
                     try:
-                        cont, chars, items, la = R.analyze_direct(rec, scale, rev=rev, alias=alias)
+                        cont, chars, items, la = R.analyze_direct(rec, scale, rev=rev, alias=alias, variant=variant)
                     finally:
                         cpu_limit(0)
                 except MachineryError:
@@ -328,6 +332,7 @@ def replay_chunk(chunk):
                                                                      "" if alias is None else " with %s=%r" % (R.FIELDS[alias[0]], alias[1])),
                                         dict(short(rec), scale=str(scale), alias=repr(alias))))
                     continue
+                res["variant_runs"] += variant > 0
                 if alias is not None:
                     res["alias_runs"] += 1
                     la = la_base                        # the predicates are evaluated with the ratio (exact arithmetic)
@@ -575,7 +580,7 @@ def direction_a(ck, mode, invariants, dev, pdf_every, pdf_scales, pdf_text_every
     t0 = time.time()
     paths, names = bucketize(ck, sorted(outs, key=lambda x: x[0] == "simulate"))
     tot = {"n": 0, "runs": 0, "dev": 0, "tie": 0, "tie_real": 0, "colpage": 0, "scalecmp": 0, "pred_evals": 0, "sim_tie": 0, "gridties": 0,
-           "alias_runs": 0, "alias_skipped": 0}
+           "alias_runs": 0, "alias_skipped": 0, "variant_runs": 0}
     pdf = {"pages": 0, "docs": 0, "dev": 0, "text": 0, "scalecmp": 0, "gridties": 0}
     per_family = {}
     mismatches = []
@@ -619,6 +624,7 @@ def direction_a(ck, mode, invariants, dev, pdf_every, pdf_scales, pdf_text_every
     ck.replayed += tot["n"]
     ck.extra["direct_runs"] = tot["runs"]
     ck.extra["runs_with_extreme_laparams_values"] = tot["alias_runs"]
+    ck.extra["runs_with_other_glyph_texts"] = tot["variant_runs"]
     if tot["alias_skipped"]:
         ck.extra["extreme_laparams_runs_skipped_after_timeouts"] = tot["alias_skipped"]
     ck.extra["pdf_pages_analysed"] = pdf["pages"]
